@@ -1055,7 +1055,7 @@ reg('C07', run_C07, ['Prop_C07.v'], I6RULE + 'actions: $$ = (c + sum coef_i*$i) 
     level_note=MODEL_NOTE + ' User actions are modelled as pure functions of the $n values.')
 reg('C08', run_C08, ['Prop_C08.v'], I6RULE + 'evaluations = (grammar, job, variant pair) comparisons of verdict, reductions with fetch stamps, value, fetch count; non-trivial = jobs with an accepted parse',
     technique='Coq theorem (array-and-pointer driver simulates the abstract machine; packed lookup = dense cell) + pairwise comparison of the five real variants on identical inputs',
-    level_text='Proved in Coq: the concrete driver shared by all templates equals the abstract machine on every table/input/fuel (C08_array_driver), packed lookup equals the dense cell (C08_packed_lookup), and the five variants of the model pipeline give the same verdict, reductions and value on every input (C08_variants). All five real variants are compared pairwise on every corpus input (verdict class, reductions with fetch stamps, value, fetch count).',
+    level_text='Proved in Coq: the concrete driver shared by all templates equals the abstract machine on every table/input/fuel (C08_array_driver), packed lookup equals the dense cell (C08_packed_lookup), and the five variants of the model pipeline give the same verdict, reductions and value on every input (C08_variants). All five real variants are compared pairwise on every corpus input (verdict class, reductions with fetch stamps, value, fetch count). C08_from_the_text: the same for the tables computed from the bytes of a grammar file, with no hypothesis on the grammar object.',
     level_note=MODEL_NOTE)
 reg('C09', run_C09, ['Prop_C09.v'], BERULE + 'non-trivial = grammars with >= 4 states and a state with >= 2 kernel items',
     technique='Coq theorems about the executable closure/goto worklist (structure, closure completeness, goto completeness, reachability) + implementation automaton compared with the model up to renumbering',
